@@ -10,68 +10,84 @@
    [swf s]: every big_map on the stack is attached to the interpreter's current context.
    Cells are arbitrary lists over the modelled alphabet; an instruction fails whenever the Python
    code raises, so failures occur at every instruction position (FAILWITH, underflow, ill-typed
-   operands and literals, overflow, undeclared sections, unparsable cells).  No length bound. *)
+   operands and literals, overflow, undeclared sections, unparsable cells), also inside DIP / DIP n /
+   IF / IF_NONE / LOOP bodies and inside lambdas run by EXEC.  No length bound.
+   Fuel: every LOOP iteration and every EXEC consumes one unit of [fuel]; a cell on which the model
+   runs out of fuel has result [RFuel].  The theorems hold for every amount of fuel and state their
+   claim for the runs in which no cell ran out of it ([forallb fuel_ok rs = true]), so nothing is
+   true "because the fuel ran out". *)
 From Coq Require Import List ZArith Bool.
 From PV Require Import Michelson.Repl Proofs.Repl_proofs.
 Import ListNotations.
 
 (* the property: for every cell sequence, the session with the failing cells removed yields exactly
-   the results of the surviving cells (big_map ids and lazy diffs included) and ends with the same
-   stack and context *)
-Theorem C22_failed_cell_is_noop : forall cells,
-  let rs := snd (run Rebind init cells) in
-  snd (run Rebind init (keep_done cells rs)) = filter is_done rs /\
-  view (fst (run Rebind init (keep_done cells rs))) = view (fst (run Rebind init cells)).
-Proof. intro cells. exact (run_noop cells init init swf_init swf_init eq_refl). Qed.
+   the results of the surviving cells (big_map ids and lazy diffs included), ends with the same
+   stack and context, and does not run out of fuel either *)
+Theorem C22_failed_cell_is_noop : forall fuel cells,
+  let rs := snd (run Rebind fuel init cells) in
+  forallb fuel_ok rs = true ->
+  snd (run Rebind fuel init (keep_done cells rs)) = filter is_done rs /\
+  view (fst (run Rebind fuel init (keep_done cells rs))) = view (fst (run Rebind fuel init cells)) /\
+  forallb fuel_ok (snd (run Rebind fuel init (keep_done cells rs))) = true.
+Proof.
+  intros fuel cells rs H.
+  destruct (run_noop fuel cells init init swf_init swf_init eq_refl) as [E1 E2].
+  fold rs in E1, E2. repeat split; try assumption. rewrite E1. apply filter_fuel_ok, H.
+Qed.
 Print Assumptions C22_failed_cell_is_noop.
 
 (* the same from any two sessions that look alike and satisfy the invariant (not only the initial one) *)
-Theorem C22_failed_cell_is_noop_from : forall cells s s2,
+Theorem C22_failed_cell_is_noop_from : forall fuel cells s s2,
   swf s -> swf s2 -> view s = view s2 ->
-  let rs := snd (run Rebind s cells) in
-  snd (run Rebind s2 (keep_done cells rs)) = filter is_done rs /\
-  view (fst (run Rebind s2 (keep_done cells rs))) = view (fst (run Rebind s cells)).
-Proof. exact run_noop. Qed.
+  let rs := snd (run Rebind fuel s cells) in
+  forallb fuel_ok rs = true ->
+  snd (run Rebind fuel s2 (keep_done cells rs)) = filter is_done rs /\
+  view (fst (run Rebind fuel s2 (keep_done cells rs))) = view (fst (run Rebind fuel s cells)).
+Proof. intros fuel cells s s2 W W2 E rs _. exact (run_noop fuel cells s s2 W W2 E). Qed.
 Print Assumptions C22_failed_cell_is_noop_from.
 
 (* in the session without the failing cells no cell fails *)
-Theorem C22_reduced_session_has_no_failure : forall cells,
-  forallb is_done (snd (run Rebind init (keep_done cells (snd (run Rebind init cells))))) = true.
+Theorem C22_reduced_session_has_no_failure : forall fuel cells,
+  let rs := snd (run Rebind fuel init cells) in
+  forallb fuel_ok rs = true ->
+  forallb is_done (snd (run Rebind fuel init (keep_done cells rs))) = true.
 Proof.
-  intro cells. destruct (run_noop cells init init swf_init swf_init eq_refl) as [E _].
-  rewrite E. apply filter_done_all.
+  intros fuel cells rs _. destruct (run_noop fuel cells init init swf_init swf_init eq_refl) as [E _].
+  fold rs in E. rewrite E. apply filter_done_all.
 Qed.
 Print Assumptions C22_reduced_session_has_no_failure.
 
-(* one failing cell: stack and context look as before, the invariant is re-established *)
-Theorem C22_failing_cell_restores_session : forall c s,
-  swf s -> snd (exec_cell Rebind s c) = RFail ->
-  view (fst (exec_cell Rebind s c)) = view s /\ swf (fst (exec_cell Rebind s c)).
-Proof. exact exec_cell_fail. Qed.
+(* one failing cell (not one cut off by the fuel): stack and context look as before, the invariant
+   is re-established *)
+Theorem C22_failing_cell_restores_session : forall fuel c s,
+  swf s -> snd (exec_cell Rebind fuel s c) = RFail ->
+  view (fst (exec_cell Rebind fuel s c)) = view s /\ swf (fst (exec_cell Rebind fuel s c)).
+Proof. intros fuel c s W E. apply exec_cell_fail; [exact W|rewrite E; reflexivity]. Qed.
 Print Assumptions C22_failing_cell_restores_session.
 
 (* the invariant behind it: after any cell sequence every big_map on the stack is attached to the
    interpreter's current context *)
-Theorem C22_big_maps_stay_attached : forall cells, swf (fst (run Rebind init cells)).
-Proof. intro cells. apply run_swf, swf_init. Qed.
+Theorem C22_big_maps_stay_attached : forall fuel cells, swf (fst (run Rebind fuel init cells)).
+Proof. intros fuel cells. apply run_swf, swf_init. Qed.
 Print Assumptions C22_big_maps_stay_attached.
 
 (* every later observable result: sessions that look alike cannot be told apart by any continuation *)
-Theorem C22_equal_views_equal_futures : forall cells s s2,
+Theorem C22_equal_views_equal_futures : forall fuel cells s s2,
   swf s -> swf s2 -> view s = view s2 ->
-  snd (run Rebind s cells) = snd (run Rebind s2 cells) /\
-  view (fst (run Rebind s cells)) = view (fst (run Rebind s2 cells)).
+  snd (run Rebind fuel s cells) = snd (run Rebind fuel s2 cells) /\
+  view (fst (run Rebind fuel s cells)) = view (fst (run Rebind fuel s2 cells)).
 Proof. exact run_rel. Qed.
 Print Assumptions C22_equal_views_equal_futures.
 
 (* the restore as it was before commit 26d2050 (big_maps of the stack backup keep pointing at the
    discarded context) violates the property: with the failing cell the two COMMITs hand out ids 0, 0;
-   without it 0, 1 *)
-Theorem C22_alias_refuted : exists cells,
-  let rs := snd (run Alias init cells) in
-  snd (run Alias init (keep_done cells rs)) <> filter is_done rs.
+   without it 0, 1 (no cell of the witness needs fuel) *)
+Theorem C22_alias_refuted : exists fuel cells,
+  let rs := snd (run Alias fuel init cells) in
+  forallb fuel_ok rs = true /\
+  snd (run Alias fuel init (keep_done cells rs)) <> filter is_done rs.
 Proof.
-  exists witness_19. cbv zeta. intro H.
+  exists 8, witness_19. cbv zeta. split; [vm_compute; reflexivity|]. intro H.
   pose proof alias_refuted as [A B]. cbv zeta in A, B. rewrite H in B.
   vm_compute in B. discriminate.
 Qed.
@@ -80,22 +96,33 @@ Print Assumptions C22_alias_refuted.
 (* ... and only through big_maps on the stack: the old restore satisfies the property on every cell
    sequence in which no cell fails while a big_map is on the stack ([alias_safe], decidable by running
    the model; this was the class of the known finding before the fix) *)
-Theorem C22_alias_partial : forall cells,
-  alias_safe init cells = true ->
-  let rs := snd (run Alias init cells) in
-  snd (run Alias init (keep_done cells rs)) = filter is_done rs /\
-  view (fst (run Alias init (keep_done cells rs))) = view (fst (run Alias init cells)).
-Proof. exact alias_partial. Qed.
+Theorem C22_alias_partial : forall fuel cells,
+  alias_safe fuel init cells = true ->
+  let rs := snd (run Alias fuel init cells) in
+  forallb fuel_ok rs = true ->
+  snd (run Alias fuel init (keep_done cells rs)) = filter is_done rs /\
+  view (fst (run Alias fuel init (keep_done cells rs))) = view (fst (run Alias fuel init cells)).
+Proof. intros fuel cells H rs _. exact (alias_partial fuel cells H). Qed.
 Print Assumptions C22_alias_partial.
 
-Example C22_alias_class_excludes_witness : alias_safe init witness_19 = false.
+Example C22_alias_class_excludes_witness : alias_safe 8 init witness_19 = false.
 Proof. exact alias_safe_witness. Qed.
 
 (* non-vacuity: in the repaired mode the same session has a failing cell, big_maps on the stack at
    that moment, and the ids 0, 1 with and without it *)
 Example C22_example :
-  let rs := snd (run Rebind init witness_19) in
+  let rs := snd (run Rebind 8 init witness_19) in
   map is_done rs = [true; true; true; false; true; true; true] /\
   commit_ids rs = [0; 1]%Z /\
-  commit_ids (snd (run Rebind init (keep_done witness_19 rs))) = [0; 1]%Z.
+  commit_ids (snd (run Rebind 8 init (keep_done witness_19 rs))) = [0; 1]%Z.
 Proof. exact rebind_witness. Qed.
+
+(* non-vacuity for the larger alphabet (the shape of seed C22-7): a lambda that allocates a big_map is
+   stored by the first cell; the second cell EXECutes it, updates the big_map and fails; no fuel problem;
+   the temporary id drawn by the failing cell is given back (one id in use at the end) *)
+Example C22_stored_lambda_example :
+  let rs := snd (run Rebind 8 init stored_lambda_session) in
+  map is_done rs = [true; false; true; true; true] /\
+  forallb fuel_ok rs = true /\
+  c_tmp (snd (view (fst (run Rebind 8 init stored_lambda_session)))) = 1%Z.
+Proof. exact stored_lambda_example. Qed.
